@@ -11,7 +11,7 @@ Record sstate := mkS {
   ss_latest : list (option (ref * epoch));  (* per validator: the latest accepted vote and its target epoch *)
   ss_applied : list (option ref);           (* the votes the head reflects: the latest ones as of the last refresh *)
   ss_bal : list N; ss_spe : N;
-  ss_partial : bool                         (* a prune sink failed part-way: the set of nodes is no longer determined *)
+  ss_partial : bool                         (* unused since C10-prune-partial-reparent (always false): after a sink failure the tree is what was not acknowledged *)
 }.
 
 Definition with_tree (s : sstate) (t : tree) : sstate :=
